@@ -16,11 +16,11 @@ out = ["# SENSITIVITY — do the checks notice when a property is broken?\n",
 "Both directions are recorded here: the pristine tree stays silent (section 3), and deliberate",
 "property-breaking changes are reported within the *quick* budget (sections 1 and 2).\n",
 "## 1. Seeded changes written by independent sub-agents\n",
-f"{len(metas)} changes, written in eight rounds by sub-agents that never saw `/verif`: rounds 1, 2, 5, 7 and 8 were given only the text",
+f"{len(metas)} changes, written in nine rounds by sub-agents that never saw `/verif`: rounds 1, 2, 5, 7, 8 and 9 were given only the text",
 "of one or two properties and a scratch worktree of `/repo`; rounds 2 and 3 were additionally told which ideas had already",
 "been used and asked for changes needing two or more coinciding conditions; the *wildcard* rounds were given the eight",
 "claimed property texts plus a prose description of what the harness generates and asked for changes such a harness is",
-"unlikely to hit; round 7 (24 changes, after the final campaign of the earlier ones) asked eight fresh sub-agents for three changes each in three different anchored mechanisms, round 8 (24 more) for changes that need two or more coinciding conditions.  Every change was confirmed independently (`tools/verify_seed.sh`: compiles, the 34 existing tests pass,",
+"unlikely to hit; round 7 (24 changes, after the final campaign of the earlier ones) asked eight fresh sub-agents for three changes each in three different anchored mechanisms, round 8 (24 more) for changes that need two or more coinciding conditions; round 9 (16 changes) was a held-out round against the finished checks: 15 of its 16 changes were caught by their target check as they arrived.  Every change was confirmed independently (`tools/verify_seed.sh`: compiles, the 34 existing tests pass,",
 "its demonstration passes on the clean tree and fails with the change) and then run against all eight checks",
 "(`tools/try_seed.sh` / `tools/seed_matrix.py`, quick tier, scratch worktree).  Files: `seeded/<id>/{patch.diff,demo.rs,NOTES.md,meta.json}`.\n",
 "| id | breaks | what it needs to manifest | caught by | first run |", "|---|---|---|---|---|"]
